@@ -88,6 +88,30 @@ class Ctx:
                 cache[prefix] = Ctx(p2, self.tier)
         return cache[prefix]
 
+    def internal_helper(self, f: Func) -> bool:
+        """f is called only from inside the package, by name: a `_private` function or method, or a module-level function of a
+        rule / helper module that is neither a registered rule, nor exported through an `__all__`, nor reached by a dynamic
+        dispatch.  Its call sites are then all of its uses on the paths of MarkdownIt.parse / render, and what holds at every
+        one of them may be assumed at its entry (a contract derived from - and so validated at - the call sites)."""
+        if f.name.startswith("_") and not f.name.startswith("__"):
+            return True
+        if f.cls is not None:
+            return False
+        cache = self.__dict__.setdefault("_internal_helper", None)
+        if cache is None:
+            exported: set[str] = set()
+            for m in self.p.modules.values():
+                for n in m.tree.body:
+                    if isinstance(n, ast.Assign) and any(isinstance(t, ast.Name) and t.id == "__all__" for t in n.targets):
+                        exported |= {x.value for x in ast.walk(n.value) if isinstance(x, ast.Constant) and isinstance(x.value, str)}
+            rules = {reg.func for ch in self.reg.rules.values() for reg in ch}
+            cache = self.__dict__["_internal_helper"] = (exported, rules)
+        exported, rules = cache
+        if f.name in exported or f in rules or not f.module.rel.startswith(("rules_block/", "rules_inline/", "rules_core/")):
+            return False
+        sites = self.cg.callers.get(f, [])
+        return bool(sites) and all(cs.kind == "direct" for cs in sites)
+
     def norm_notes(self) -> list[str]:
         out = []
         for rel, m in sorted(self.p.modules.items()):
